@@ -314,3 +314,6 @@ fn e_canary_must_fail() {
     assert!(as_bool(&r) == Some(true), "canary");
     forget(r);
 }
+
+// concrete-playback replay slot (see lib/kani_run.py: replay); empty except while a counterexample is being replayed
+include!("ops.playback.rs");
